@@ -201,6 +201,15 @@ def main():
     C.self_test(cross=(a.tier != "quick"))
     rig_r(chk, a.tier, a.seed)
     rig_p(chk, a.tier, a.seed)
+    if a.tier == "thorough":
+        mc = runner.run_memcheck(a.seed)
+        chk.extra["memcheck"] = {k: v for k, v in mc.items() if k != "reports"}
+        chk.extra["memcheck"]["reports_in_fast_so"] = len(mc["reports"])
+        if mc.get("timeout") or not mc.get("completed"):
+            chk.inconc("memcheck workload did not complete")
+        for kind, text in mc["reports"]:
+            chk.violation("memcheck:%s" % kind.split(" ")[0].lower(), "valgrind memcheck: %s (frame in _fast.so)" % kind, {"report": text})
+        chk.seen(mc["exchanges"])
     sys.exit(chk.finish())
 
 
